@@ -127,8 +127,19 @@ func (x *verifMExec) run(n *verifMNode) error {
 	I.src.next = m
 	I.src.draws = 0
 	var reqRuns, fbRuns, fbArgOK int64
+	ctx := context.Background()
+	if ctxm == 2 {
+		ctx = x.cancelled
+	}
+	// ctxm 3: live at entry, cancelled by the request itself before it returns
+	cancelNow := func() {}
+	if ctxm == 3 {
+		ctx, cancelNow = context.WithCancel(context.Background())
+	}
+	defer cancelNow()
 	body := func() error {
 		// the request takes dur after the inner call - also when that one panics
+		defer cancelNow()
 		defer timex.AdvanceFake(time.Duration(dur))
 		if n.In != nil {
 			e := x.run(n.In)
@@ -149,10 +160,6 @@ func (x *verifMExec) run(n *verifMNode) error {
 			fbArgOK = 1
 		}
 		return verifErrFB
-	}
-	ctx := context.Background()
-	if ctxm == 2 {
-		ctx = x.cancelled
 	}
 	var res int64
 	var ret error
@@ -221,7 +228,9 @@ func verifRunMulti(c verifC01Case) (out verifC01Out) {
 	for i, kind := range c.Insts {
 		I := &verifMInst{named: kind == 1, src: &verifC01Src{}}
 		if I.named {
-			I.name = fmt.Sprintf("verif-c01-%d-%d-%d", c.ID, c.Base, i)
+			// names of one case differ as little as names can: case, trailing blank, prefix
+			I.name = fmt.Sprintf("verif-c01-%d-%d-", c.ID, c.Base) + []string{"n", "N", "n ", "nn"}[i%4] +
+				fmt.Sprint(i/4)
 		} else {
 			I.brk = NewBreaker()
 			gb, err := verifUnwrap(I.brk)
